@@ -11,6 +11,7 @@ CONSTANTS
   StaleClears = TRUE
   KickClears = FALSE
   AllowKick = TRUE
+  AllowQuit = TRUE
   Sequential = FALSE
   Export = FALSE
 VIEW View
